@@ -65,6 +65,10 @@ def build_traces(path, tier, seed):
         if i % 3 == 1:
             periods = [0.0] + periods
         container = [np.array(periods), list(periods), tuple(periods)][i % 3]
+        if i % 6 >= 4:       # all-integer period containers, with and without a leading 0
+            dt = 0.01
+            container = [[0, 1, 2, 3], np.array([1, 2]), (0, 2), [3]][(i // 6) % 4]
+            periods = [float(t) for t in container]
         kind = ["pseudo", "true"][i % 2]
         fn = sdof.pseudo_response_spectra if kind == "pseudo" else sdof.true_response_spectra
         arg = a            # records are arrays here: the property quantifies over period containers (record containers: C05)
